@@ -47,6 +47,19 @@ pub open spec fn hex2(b: u8) -> Seq<char> { seq![hexd(b as int / 16), hexd(b as 
 fn vfmt_hex2_upper<W: VWrite>(w: &mut W, b: &u8)
     ensures final(w).text() == old(w).text() + hex2(*b)
 { let s = format!("{:02X}", b); w.vpush(s.as_str()) }
+// {:X} / {:x} / {:02x} of a byte (trusted, std::fmt): hexadecimal digits, most significant first, WITHOUT padding for {:X} / {:x}
+pub open spec fn hexd_lower(n: int) -> char {
+    if n == 10 { 'a' } else if n == 11 { 'b' } else if n == 12 { 'c' } else if n == 13 { 'd' } else if n == 14 { 'e' } else if n == 15 { 'f' } else { hexd(n) }
+}
+pub open spec fn hex_nopad(b: u8) -> Seq<char> { if (b as int) < 16 { seq![hexd(b as int)] } else { hex2(b) } }
+pub open spec fn hex2_lower(b: u8) -> Seq<char> { seq![hexd_lower(b as int / 16), hexd_lower(b as int % 16)] }
+pub open spec fn hex_nopad_lower(b: u8) -> Seq<char> { if (b as int) < 16 { seq![hexd_lower(b as int)] } else { hex2_lower(b) } }
+#[verifier::external_body]
+fn vfmt_hex_upper<W: VWrite>(w: &mut W, b: &u8) ensures final(w).text() == old(w).text() + hex_nopad(*b) { let s = format!("{:X}", b); w.vpush(s.as_str()) }
+#[verifier::external_body]
+fn vfmt_hex_lower<W: VWrite>(w: &mut W, b: &u8) ensures final(w).text() == old(w).text() + hex_nopad_lower(*b) { let s = format!("{:x}", b); w.vpush(s.as_str()) }
+#[verifier::external_body]
+fn vfmt_hex2_lower<W: VWrite>(w: &mut W, b: &u8) ensures final(w).text() == old(w).text() + hex2_lower(*b) { let s = format!("{:02x}", b); w.vpush(s.as_str()) }
 // Display of numbers: canonical text, left uninterpreted (no proof depends on its shape)
 pub uninterp spec fn num_text_int(i: int) -> Seq<char>;
 pub uninterp spec fn num_text_f32(f: f32) -> Seq<char>;
